@@ -140,6 +140,22 @@ pub mod verif_hooks {
     pub use crate::rewind::Rewind;
     #[cfg(feature = "server")]
     pub use crate::server::conn::auto::verif_read_version;
+
+    thread_local! {
+        static POOL_LOCK_CONTENDED: std::cell::Cell<bool> = const { std::cell::Cell::new(false) };
+    }
+
+    /// Fault point: while set on this thread, the connection pool's *non-blocking* lock
+    /// attempt (`PoolRef::try_lock`) fails, as it would while another thread holds the lock.
+    /// The blocking `lock` is unaffected.
+    pub fn set_pool_lock_contended(contended: bool) {
+        POOL_LOCK_CONTENDED.with(|c| c.set(contended));
+    }
+
+    #[allow(dead_code)]
+    pub(crate) fn pool_lock_contended() -> bool {
+        POOL_LOCK_CONTENDED.with(|c| c.get())
+    }
 }
 
 pub use body::Body;
